@@ -195,11 +195,21 @@ func (lexer *Lexer) Linenum() int {
 
 func (lex *Lexer) Reset() {
 	lex.stream = nil
+	lex.next = nil
 	lex.tokens = lex.tokens[:0]
 	lex.state = LexerNormal
 	lex.linenum = 1
 	lex.preBuiltinRune = 0
 	lex.buffer.Reset()
+	// the look-back memory must not survive either: it decides
+	// whether a leading '-' or '+' of the next, independent text
+	// starts a number, so "-1 " was read as the symbol - followed by 1
+	// whenever the previous load had ended in, say, ')'.
+	lex.prevrune = 0
+	lex.prevToken = Token{}
+	lex.prevPrevToken = Token{}
+	lex.priori = 0
+	lex.priorRune = [20]rune{}
 }
 
 func (lex *Lexer) EmptyToken() Token {
